@@ -418,7 +418,7 @@ func (r *Run) Finish(c Coverage) {
 		}
 		newV = append(newV, s)
 	}
-	if old, _ := filepath.Glob(filepath.Join(r.Out, "replays", r.ID+"-*.json")); r.Replay == "" {
+	if old, _ := filepath.Glob(filepath.Join(r.Out, "replays", r.ID+"-*.json")); r.Replay == "" && os.Getenv("VERIF_PART") != "2" {
 		for _, f := range old {
 			os.Remove(f)
 		}
@@ -478,6 +478,9 @@ func (r *Run) Finish(c Coverage) {
 	if c.Assumptions == nil {
 		ev["assumptions"] = []string{}
 	}
+	if os.Getenv("VERIF_PART") == "2" {
+		ev = mergeEvidence(filepath.Join(r.Out, "evidence", r.ID+".json"), ev)
+	}
 	data, _ := json.MarshalIndent(ev, "", " ")
 	os.MkdirAll(filepath.Join(r.Out, "evidence"), 0o755)
 	if err := os.WriteFile(filepath.Join(r.Out, "evidence", r.ID+".json"), append(data, '\n'), 0o644); err != nil {
@@ -491,6 +494,69 @@ func (r *Run) Finish(c Coverage) {
 	os.Exit(0)
 }
 
+// mergeEvidence folds the evidence of a property's second harness (run by ./check right after
+// the first, with VERIF_PART=2) into the file the first one wrote: counts add up, rules, bounds,
+// assumptions and samples are kept side by side.
+func mergeEvidence(path string, ev map[string]any) map[string]any {
+	data, err := os.ReadFile(path)
+	if err != nil {
+		return ev
+	}
+	var old map[string]any
+	if json.Unmarshal(data, &old) != nil || old["tier"] != ev["tier"] {
+		return ev
+	}
+	oc, _ := old["coverage"].(map[string]any)
+	nc, _ := ev["coverage"].(map[string]any)
+	if oc == nil || nc == nil {
+		return ev
+	}
+	num := func(v any) float64 {
+		switch x := v.(type) {
+		case float64:
+			return x
+		case int64:
+			return float64(x)
+		case int:
+			return float64(x)
+		}
+		return 0
+	}
+	list := func(v any) []any {
+		switch x := v.(type) {
+		case []any:
+			return x
+		case []string:
+			out := make([]any, len(x))
+			for i := range x {
+				out[i] = x[i]
+			}
+			return out
+		}
+		return nil
+	}
+	for _, k := range []string{"states", "transitions", "traces_validated_against_impl", "evaluations", "distinct_nontrivial"} {
+		nc[k] = int64(num(oc[k]) + num(nc[k]))
+	}
+	nc["rule"] = fmt.Sprintf("PART 1: %v || PART 2 (controlled scheduler): %v", oc["rule"], nc["rule"])
+	nc["exhaustive"] = oc["exhaustive"] == true && nc["exhaustive"] == true
+	nc["bounds"] = map[string]any{"part1": oc["bounds"], "part2": nc["bounds"]}
+	nc["counters"] = map[string]any{"part1": oc["counters"], "part2": nc["counters"]}
+	nc["samples"] = append(list(oc["samples"]), list(nc["samples"])...)
+	for _, k := range []string{"known_findings_met", "new_violation_signatures", "caps_hit", "notes"} {
+		if l := append(list(oc[k]), list(nc[k])...); len(l) > 0 || k == "known_findings_met" || k == "new_violation_signatures" {
+			if l == nil {
+				l = []any{}
+			}
+			nc[k] = l
+		}
+	}
+	ev["assumptions"] = append(list(old["assumptions"]), list(ev["assumptions"])...)
+	ev["wall_s"] = num(old["wall_s"]) + num(ev["wall_s"])
+	ev["violations"] = int(num(old["violations"]) + num(ev["violations"]))
+	return ev
+}
+
 func (r *Run) writeReplay(v *Violation) string {
 	sum := sha256.Sum256([]byte(v.Sig))
 	name := fmt.Sprintf("%s-%s.json", r.ID, hex.EncodeToString(sum[:5]))
@@ -502,6 +568,7 @@ func (r *Run) writeReplay(v *Violation) string {
 		"signature":   v.Sig,
 		"detail":      v.Detail,
 		"replay_cmd":  fmt.Sprintf("/verif/check %s --replay %s", r.ID, path),
+		"part":        os.Getenv("VERIF_PART"),
 	}, "", " ")
 	os.WriteFile(path, append(data, '\n'), 0o644)
 	return path
